@@ -204,20 +204,33 @@ def constants(ctx, report):
                     for ref in ('self.' + name, 'cls.' + name, c.name + '.' + name):
                         txt = txt.replace(ref, repr(val))
         return txt
-    if spec['starttls_oid'] not in with_constants(c.methods['compose'].node):
+    # the request name the composer hands to the encoder: by evaluation of compose (helpers and hooks of a base class included); the
+    # text of the method with its constants written out decides when compose leaves the evaluable subset
+    from ..ldapbridge import composed_messages
+    composed = composed_messages(ctx).get(c.name)
+    name_written = None
+    try:
+        name_written = composed['protocolOp']['extendedReq']['requestName'] if composed is not None else None
+    except (KeyError, TypeError):
+        name_written = b''
+    compose_f = c.resolve('compose')
+    if name_written is not None:
+        if bytes(name_written if not isinstance(name_written, str) else name_written.encode('ascii')) != spec['starttls_oid'].encode('ascii'):
+            report.add('C09.R5', c.construct + '@oid', 'StartTLS request name is not %s (compose hands %r to the encoder)' % (spec['starttls_oid'], name_written))
+    elif compose_f is None or spec['starttls_oid'] not in with_constants(compose_f.node):
         report.add('C09.R5', c.construct + '@oid', 'StartTLS request name is not %s' % spec['starttls_oid'])
     # ... and the parser has to look at it: every extended request has the same protocolOp, the request name tells them apart
     report.count('C09.R5')
     from ..ldapbridge import evaluate_messages
     ldap = evaluate_messages(ctx, spec['starttls_oid'])
     ok = ldap['evaluated'] and 'request-name' not in ldap['problems']
-    for n in ast.walk(c.methods['_parse'].node) if not ldap['evaluated'] else ():
+    for n in ast.walk(c.resolve('_parse').node) if not ldap['evaluated'] else ():
         if isinstance(n, ast.If) and any(isinstance(x, ast.Raise) for x in n.body):
             t = with_constants(n.test)
             if 'requestName' in t and spec['starttls_oid'] in t and ('!=' in t or 'not in' in t):
                 ok = True
     if not ok:
-        report.add('C09.R5', c.methods['_parse'].construct + '@request-name',
+        report.add('C09.R5', c.resolve('_parse').construct + '@request-name',
                    'the StartTLS request parser does not compare the requestName on the wire with %s: any other extended request (Who am I?, password modify, '
                    'cancel) is returned as a StartTLS request' % spec['starttls_oid'])
     t = model.cls('TPKT')
